@@ -8,6 +8,8 @@ ledger must not have grown (no spawn, no signal).
 """
 import copy
 import json
+import os
+import tempfile
 
 from tornado import gen
 
@@ -45,6 +47,9 @@ def templates(names, pids):
         ('incr', {'name': n, 'nb': 1}), ('decr', {'name': n, 'nb': 1}),
         ('set', {'name': n, 'options': {'warmup_delay': 0.7}}),
         ('set', {'name': n, 'options': dict(VALID_OPTS[:3])}),
+        # options whose change makes the watcher reload its workers
+        ('set', {'name': n, 'options': {'graceful_timeout': 2.0, 'env': {'K': 'v'}}}),
+        ('set', {'name': n, 'options': {'max_age_variance': 5, 'numprocesses': 2, 'max_age': 0}}),
         ('get', {'name': n, 'keys': ['numprocesses']}), ('options', {'name': n}),
         ('start', {'name': n}), ('stop', {'name': n}), ('restart', {'name': n}), ('reload', {'name': n}),
         ('kill', {'name': n, 'signum': 15}), ('signal', {'name': n, 'signum': 10}),
@@ -146,7 +151,9 @@ def gen_world(rnd):
         ws.append({'name': 'st', 'numprocesses': 1, 'autostart': False})
     if rnd.random() < .3:
         ws.append({'name': 'sg', 'numprocesses': 1, 'singleton': True})
-    return {'watchers': ws, 'inflight': rnd.random() < .4, 'owner_mode': rnd.random() < .2}
+    return {'watchers': ws, 'inflight': rnd.random() < .4, 'owner_mode': rnd.random() < .2,
+            # the directory the daemon was started in (the default working_dir of its watchers) is removed under it
+            'cwd_removed': rnd.random() < .12}
 
 
 def run_case(spec):
@@ -161,6 +168,13 @@ def run_case(spec):
     w = simhist.new_world(h)
     nv = len(res.viol)
     done = []
+    home = os.getcwd()
+    gone = None
+    if h.get('cwd_removed'):
+        gone = tempfile.mkdtemp(prefix='verif-c11-cwd-')
+        os.chdir(gone)
+        h = dict(h, _rm_cwd=gone)
+        res.obs['worlds_whose_start_directory_is_removed'] += 1
     try:
         w.run(lambda: _world(w, h, rnd, reqs, res, done))
         for v in res.viol[nv:]:
@@ -169,6 +183,9 @@ def run_case(spec):
             res.inconclusive.append('containment breach')
     finally:
         w.close()
+        os.chdir(home)
+        if gone and os.path.isdir(gone):
+            os.rmdir(gone)
     return res
 
 
@@ -203,6 +220,8 @@ def _world(w, h, rnd, reqs, res, done):
     yield arb.start()
     yield w.settle(30)
     names = [c['name'] for c in h['watchers']]
+    if h.get('_rm_cwd') and os.path.isdir(h['_rm_cwd']):
+        os.rmdir(h['_rm_cwd'])
     state = 'idle'
     if h.get('inflight'):
         w.req('restart', name='a')             # slow: workers take 0.4 s to die, 0.3 s warmup
